@@ -382,7 +382,9 @@ Checks that had to be strengthened because a seed was first missed or reported o
   zero exactly when the used residuals vanish, weighting never increases chi-square) with the same laws evaluated on
   the real `compute_contact_point_weights` / `residual`, and `Props/C05` (`lmin_spec`, `lmax_spec`, `select_mem`,
   `c05_xmin_xmax_extreme`: the reported xmin / xmax are attained at points the `fit range` column flags and bracket
-  every used point).
+  every used point).  After the round the quick tier of all twenty checks (seed 0; the affected nine also with
+  seeds 1 and 2) and the thorough tier of C01, C04, C05, C10, C13, C14, C17 and C19 (seed 0, `leanchecker` included)
+  were run on the unchanged tree: no violation, no broken tie.
 
 ### 9.6 Observations that are not findings
 
